@@ -476,6 +476,26 @@ def run_m0(spec, acc):
             acc.case('%s|m0|%s' % (curve, label), None)
             if not same_bits(got, ref):
                 acc.violation('cache-result-differs:m0-' + label, '%s: load vector differs (%s)' % (curve, label), wit0)
+        # the same elements in another order against the warm cache: entry i must be the load of element i
+        for oname, order in (('reversed', list(reversed(elems))), ('rotated', elems[3:] + elems[:3])):
+            got = M0c.linform_vector(order, use_mp=False)
+            acc.case('%s|m0|cache-order|%s' % (curve, oname), None)
+            acc.seen('history:different-lists-one-process')
+            if not same_bits(got, np.array([M0.linform(e)[0] for e in order])):
+                acc.violation('cache-shared-between-lists:m0', '%s: load vector for the %s element list against a warm cache is not the per-element load' % (curve, oname),
+                              dict(wit0, order=oname))
+        # keep only the file of the original list for the fault part
+        keep = None
+        for f in sorted(os.listdir(cdir)):
+            if f.endswith('.npy'):
+                try:
+                    if same_bits(np.load(os.path.join(cdir, f)), ref):
+                        keep = f
+                except Exception:
+                    pass
+        for f in os.listdir(cdir):
+            if f.endswith('.npy') and f != keep:
+                os.remove(os.path.join(cdir, f))
         fs = [f for f in os.listdir(cdir) if f.endswith('.npy')]
         if len(fs) == 1:
             fn = os.path.join(cdir, fs[0])
